@@ -24,7 +24,11 @@ class H5Group:
         self.group = None
         if create or name in self._parent:
             self._create_h5obj()
-        self.h5obj = self.group
+
+    @property
+    def h5obj(self):
+        # the HDF5 object behind this wrapper (None while not yet created)
+        return self.group
 
     def _create_h5obj(self):
         if self.name in self._parent:
@@ -223,10 +227,12 @@ class H5Group:
             # del self.group
             self.group = None
 
-    def delete_all(self, eid):
+    def delete_all(self, eid, targets=None):
         """
         Deletes all references to a given list of objects, identified by their
-        entity_id, below the current object.
+        entity_id, below the current object. If targets (the HDF5 objects of
+        these entities) are given, only references to these very objects are
+        deleted: a copy made with kept ids carries the same ids.
         """
         # Use visit_items to traverse groups and check their children.
         # visit_items visits each item only once, so instead of checking
@@ -242,6 +248,9 @@ class H5Group:
             grp = self.create_from_h5obj(obj)
             for child in grp:
                 if child.get_attr("entity_id") in eid:
+                    if targets is not None and child.h5obj not in targets:
+                        # same id, other object: a kept-id copy
+                        continue
                     del grp[child.name]
 
         self._group.visititems(delete_by_id)
